@@ -340,6 +340,7 @@ class StorageRunner:
         self.txns = {}            # t -> TransactionMetaData of the current attempt
         self.pending = {}         # t -> (thread, result list)
         self.probe = probe
+        self.patience = 6         # seconds a tpc_begin on a FREE lock may take before it counts as blocked
         self.begun = set()        # transactions whose begin returned (real observation)
         self.events = []          # ('acquired', t) / ('released', t) in real order, for the oracle
 
@@ -394,7 +395,7 @@ class StorageRunner:
                 t, tid = int(tk[1]), int(tk[2])
                 if t in self.pending:
                     th, res = self.pending.pop(t)
-                    th.join(1.5)
+                    th.join(self.patience)
                     if th.is_alive():
                         self.pending[t] = (th, res)
                         r = 'blocked'
@@ -405,7 +406,7 @@ class StorageRunner:
                             self.events.append(('acquired', t))
                 else:
                     th, res = self._begin_thread(t, tid)
-                    th.join(self.probe if self.begun - {t} else 1.5)
+                    th.join(self.probe if self.begun - {t} else self.patience)
                     if th.is_alive():
                         self.pending[t] = (th, res)
                         r = 'blocked'
